@@ -441,6 +441,8 @@ C06_FACTORS = {
                "hash", "callback", "edit", "synchronize", "setting"],
     "eventB": ["steps", "switch", "reset", "nothing", "add", "n_to_zero", "setting", "remove"],
     "roles": ["plain", "n_active", "testparticle1", "variational", "massless"],
+    # integrator that took steps BEFORE the one under test was selected (no reset): its arrays are allocated, non-zero and unused
+    "prev": ["none", "ias15", "whfast", "mercurius", "janus", "saba", "bs", "trace", "eos"],
     "restore": ["sa[k]", "Simulation(file,k)", "Simulation(sa,k)", "iteration", "c_api"],
 }
 _VAR_OK = ("ias15", "leapfrog", "none")
@@ -456,7 +458,7 @@ def c06_excluded(f, a, g, b):
         return True          # variational particles: only IAS15 / leapfrog / none handle every configuration (WHFast family overflows p_jh)
     if roles == "variational" and any(e in _PARTICLE_EVENTS + ("switch",) for e in evs):
         return True          # real particles must not be added / removed / merged after variational ones; switch may leave the supported set
-    if integ == "bs" and any(e in _PARTICLE_EVENTS for e in evs):
+    if (integ == "bs" or d.get("prev") == "bs") and any(e in _PARTICLE_EVENTS for e in evs):
         return True          # BS keeps ODE buffers sized for the old N (heap overflow in integrator_bs.c, not archive code)
     if integ in ("bs", "trace", "mercurius") and "merge" in evs:
         return True
@@ -466,6 +468,8 @@ def c06_excluded(f, a, g, b):
         return True          # the merge event steps outside integrate(): cadence lags by construction
     if any(e == "lrescale" for e in evs) and roles is not None and roles != "variational":
         return True          # lrescale exists only with a variational configuration
+    if d.get("prev") is not None and d.get("prev") == integ:
+        return True          # "previous integrator" = another integrator
     if d.get("eventA") == "n_to_zero" and d.get("eventB") == "remove":
         return True          # nothing left to remove
     if cad is not None and cad != "manual" and d.get("eventA") == "sett_t0":
@@ -502,6 +506,10 @@ def c06_history_from_row(rng, row):
                 "callback": [["callback", "additional_forces"]], "edit": [["edit", 1, "x", 0.321]], "synchronize": [["synchronize"]],
                 "setting": [["set", "G", 0.75]]}[name]
     ops = list(pre)
+    prev = row.get("prev") or "none"
+    if prev != "none":
+        init["integrator"] = prev
+        ops += [["steps", 3], ["integrator", integ]]
     if row["first"] == "stepped":
         ops += [["steps", 3]]
     if row["roles"] == "variational":
@@ -791,6 +799,90 @@ LIVE_ATTRS = ["t", "dt", "G", "N", "N_var", "N_active", "steps_done", "simulatio
               "simulationarchive_auto_step", "simulationarchive_auto_interval", "dt_last_done", "softening", "exit_max_distance"]
 
 
+# ------------------------------------------------------------------------------------------ live memory image
+_IMG = {}
+_DT_SIZE = {0: 8, 1: 4, 2: 4, 3: 4, 4: 8, 5: 8, 7: 24}
+
+
+def _img_table(rebound):
+    """the field table of the library under test + the size of every scalar member taken from the Python mirror of the
+    struct (ctypes), NOT from the table's dtype: a dtype that disagrees with the member is reported, the member wins"""
+    if "tab" in _IMG:
+        return _IMG["tab"]
+    import ctypes
+    from rebound.binary_field_descriptor import binary_field_descriptor_list
+    _DT_SIZE[8] = ctypes.sizeof(rebound.Particle)
+    _DT_SIZE[15] = 4 * ctypes.sizeof(rebound.Particle)
+    tab, mism, resolved = [], [], 0
+    for fd in binary_field_descriptor_list():
+        name, dtype = fd.name.decode("ascii", "replace"), int(fd.dtype)
+        msize = None
+        if dtype in _DT_SIZE:
+            cls, off, ok = rebound.Simulation, 0, True
+            for part in name.split("."):
+                ft = dict((f_[0], f_[1]) for f_ in getattr(cls, "_fields_", []))
+                cand = part if part in ft else ("_" + part if "_" + part in ft else None)
+                if cand is None:
+                    ok = False
+                    break
+                cf = getattr(cls, cand)
+                off += cf.offset
+                msize = cf.size
+                cls = ft[cand]
+            if ok and off == int(fd.offset):
+                resolved += 1
+                if msize != _DT_SIZE[dtype]:
+                    mism.append([name, int(fd.type), _DT_SIZE[dtype], msize])
+            else:
+                msize = None
+        tab.append((int(fd.type), dtype, name, int(fd.offset), int(fd.offset_N), int(fd.element_size), msize))
+    _IMG["tab"], _IMG["mismatch"], _IMG["resolved"] = tab, mism, resolved
+    return tab
+
+
+def image_recs(rebound, s):
+    """the persisted state read from MEMORY (struct members and the arrays they point to), field by field of the table,
+    without going through reb_simulation_save_to_stream: [(id, bytes, 0)] like parse_stream"""
+    import ctypes
+    base = ctypes.addressof(s)
+    recs = []
+    for ty, dtype, name, off, offn, esz, msize in _img_table(rebound):
+        if dtype in _DT_SIZE:
+            recs.append((ty, ctypes.string_at(base + off, msize or _DT_SIZE[dtype]), 0))
+        elif dtype in (9, 10):
+            n = ctypes.c_uint.from_address(base + offn).value
+            ptr = ctypes.c_void_p.from_address(base + off).value
+            if n * esz and ptr:
+                recs.append((ty, ctypes.string_at(ptr, n * esz), 0))
+        elif dtype == 16:
+            ptr = ctypes.c_void_p.from_address(base + off).value
+            if ptr:
+                recs.append((ty, ctypes.string_at(ptr, esz), 0))
+        elif dtype == 11:
+            n = ctypes.c_uint.from_address(base + offn).value
+            if n * esz:
+                ps = [ctypes.c_void_p.from_address(base + off + 8 * i).value for i in range(7)]
+                if all(ps):
+                    recs.append((ty, b"".join(ctypes.string_at(p_, n * esz // 7) for p_ in ps), 0))
+    return recs
+
+
+def image_canon(rebound, s):
+    d = canon(image_recs(rebound, s))
+    if PJH in d:
+        d[PJH] = mask_pjh(d[PJH])
+    return d
+
+
+def image_vs_stream(img, path):
+    """ids in which the serialisation at `path` differs from the memory image (87 = function pointer flag is computed, not stored)"""
+    d = canon(parse_stream(open(path, "rb").read())[1])
+    d.pop(87, None)
+    if PJH in d:
+        d[PJH] = mask_pjh(d[PJH])
+    return [[k, len(img.get(k, b"")), len(d.get(k, b""))] for k in diff_canon(img, d)]
+
+
 def live_values(s):
     """values of scalar members read from the struct itself (not through a serialisation): what a restored snapshot
     must show — a writer that truncates a field truncates it in every stream, only the live struct knows better"""
@@ -826,12 +918,16 @@ def run_history(rebound, hist, wd, load_back=True, keep_copies=False):
         if os.path.exists(p):
             os.remove(p)
         s.save_to_file(p)
+        img = image_canon(rebound, s)
+        idf = image_vs_stream(img, p)
         cp = s.copy()
         selfeq = bool(cp == s)
         kept.append(cp)
-        meta["appends"].append(dict(kind=kind, t=hex64(s.t), steps=int(s.steps_done), N=int(s.N), selfeq=selfeq, live=live_values(s)))
+        kept_img[k] = img
+        meta["appends"].append(dict(kind=kind, t=hex64(s.t), steps=int(s.steps_done), N=int(s.N), selfeq=selfeq, live=live_values(s), image_diff=idf))
 
     caps = []   # (steps_done, t, path, copy) captured in the heartbeat during integrate
+    kept_img = {}   # append number -> memory image of the live state at that append
 
     def manual_snap():
         state.setdefault("t0", sim.t)
@@ -862,8 +958,9 @@ def run_history(rebound, hist, wd, load_back=True, keep_copies=False):
         if os.path.exists(p):
             os.remove(p)
         s.save_to_file(p)
+        img = image_canon(rebound, s)
         cp = s.copy()
-        caps.append(dict(steps=int(s.steps_done), t=hex64(s.t), path=p, copy=cp, selfeq=bool(cp == s)))
+        caps.append(dict(steps=int(s.steps_done), t=hex64(s.t), path=p, copy=cp, selfeq=bool(cp == s), img=img, image_diff=image_vs_stream(img, p)))
 
     def adv_next(tsnap):
         """what reb_simulationarchive_heartbeat does to simulationarchive_next before it saves (pinned source: one
@@ -1069,7 +1166,8 @@ def run_history(rebound, hist, wd, load_back=True, keep_copies=False):
                     os.remove(fin_p)
                 sim.save_to_file(fin_p)
                 fcp = sim.copy()
-                fin = dict(steps=int(sim.steps_done), t=hex64(sim.t), path=fin_p, copy=fcp, selfeq=bool(fcp == sim))
+                fimg = image_canon(rebound, sim)
+                fin = dict(steps=int(sim.steps_done), t=hex64(sim.t), path=fin_p, copy=fcp, selfeq=bool(fcp == sim), img=fimg, image_diff=image_vs_stream(fimg, fin_p))
                 if nocap:
                     state["exact_runs"] = state.get("exact_runs", 0) + 1
                 blobs = parse_archive(open(fn, "rb").read()) if os.path.exists(fn) else []
@@ -1108,7 +1206,14 @@ def run_history(rebound, hist, wd, load_back=True, keep_copies=False):
                     with open(p, "wb") as f:
                         f.write(sb)
                     kept.append(cp)
-                    meta["appends"].append(dict(kind="auto", t=src["t"], steps=src["steps"], N=-1, selfeq=src["selfeq"]))
+                    if src.get("img") is not None:
+                        im = dict(src["img"])
+                        if state["auto"][0] == "interval":
+                            im[48] = struct.pack("<d", state["next"])
+                        else:
+                            im[136] = struct.pack("<Q", state["next"])
+                        kept_img[k] = im
+                    meta["appends"].append(dict(kind="auto", t=src["t"], steps=src["steps"], N=-1, selfeq=src["selfeq"], image_diff=src.get("image_diff", [])))
                 meta["events"].append(dict(integrate=op[1], exact=op[2], hb=hbtrace, fin=(fin["steps"], fin["t"]),
                                            dt=hex64(sim.dt), auto=state["auto"], nnew=len(new), dir=(1 if op[1] > 0 else -1),
                                            next_after=hex64(sim.simulationarchive_next),
@@ -1148,6 +1253,9 @@ def run_history(rebound, hist, wd, load_back=True, keep_copies=False):
                 else:
                     s = sa[k]
                 back["vals"].append(live_values(s))
+                if k in kept_img:
+                    li = image_canon(rebound, s)
+                    back.setdefault("image_diff", {})[str(k)] = [[i_, len(kept_img[k].get(i_, b"")), len(li.get(i_, b""))] for i_ in diff_canon(kept_img[k], li)]
                 lp = os.path.join(wd, "l%d.bin" % k)
                 if os.path.exists(lp):
                     os.remove(lp)
@@ -1164,6 +1272,11 @@ def run_history(rebound, hist, wd, load_back=True, keep_copies=False):
         json.dump(back, f)
     meta["back"] = back
     return meta
+
+
+def image_table_report(rebound):
+    _img_table(rebound)
+    return dict(fields=len(_IMG["tab"]), scalar_members_resolved=_IMG["resolved"], dtype_size_mismatch=_IMG["mismatch"])
 
 
 def residual_tail_case(c, rebound, run_driver, drv, V, wd, rng, variant):
